@@ -66,7 +66,7 @@ def build(spec):
     if cls == "mixed_harmless":
         # any mix of competitors that the loader must cope with today: failed blocks with data in either key order,
         # stale / reorged-out blocks sorting BEFORE the active block, at several occupied heights at once
-        heights = rng.sample(range(1, tip + 1), min(tip, rng.randint(2, 5)))
+        heights = rng.sample(range(1, tip + 1), min(tip, rng.randint(2, 5)) if not spec.get("bulk") else max(2, (tip * 2) // 3))
         for h in heights:
             for c2, o2 in rng.sample([("failed_with_data", "after"), ("failed_child_with_data", "before"), ("failed_with_data", "before"),
                                       ("stale_with_data", "before"), ("reorged_out", "before")], rng.randint(1, 3)):
@@ -125,6 +125,16 @@ def build(spec):
             b = competitor_block(rng, coin, prev, tip + gap, None, None)
             competitors.append((tip + gap, b))
             placements.append(Placement(b, tip + gap, file=1, status=rng.choice([VALID_TRANSACTIONS | HAVE_DATA, ACTIVE])))
+        elif kind == "bulk_headers":
+            # a node in headers-first sync: tens of thousands of header-only records above the tip (the index loader then works on a
+            # number of records no small test index has: chunked / parallel decoding, table growth, early-exit heuristics)
+            prev = byh[tip].hash
+            nonce0 = rng.getrandbits(20)
+            merkle = rbytes(rng, 32)
+            for k in range(spec["bulk"]):
+                b = Block(4, prev, 1600000000 + k, 0x1D00FFFF, nonce0 + k, [], merkle=merkle)
+                header_only.append(HeaderOnly(b, tip + 1 + k, VALID_TREE, 0))
+                prev = b.hash
         elif kind == "failed_no_data":
             h = rng.randint(1, tip + 1)
             b = Block(rng.choice(REAL_VERSIONS), byh[h - 1].hash, rng.getrandbits(31), 0x1D00FFFF, rng.getrandbits(32), [], merkle=rbytes(rng, 32))
@@ -268,6 +278,10 @@ def plan(chk):
         add(cls="none", pos="-", order="-", extras=[])
         for _ in range(4):
             add(cls="mixed_harmless", pos="-", order="-", ranges="all" if chk.thorough else 12)
+        if rep < (4 if chk.thorough else 1):
+            for bulk in ([9000, 70000] if not chk.thorough else [8200, 20000, 70000, 140000]):
+                add(cls="mixed_harmless", pos="-", order="-", ranges=3, blocks=40, bulk=bulk, extras=["bulk_headers"], callbacks=[CALLBACKS[0], CALLBACKS[1 + n % 4]])
+                add(cls="none", pos="-", order="-", blocks=12, bulk=bulk, extras=["bulk_headers", "header_only_occupied"], callbacks=[CALLBACKS[0]])
         for cls in ("stale_with_data", "failed_with_data", "failed_child_with_data", "reorged_out"):
             for order in ("before", "after"):
                 for length in (1, 2, 3):
